@@ -335,8 +335,6 @@ def obligations(run, mir, rp, replay, want=("advance", "invariants", "panic")):
         for p in sr.ends:
             if p.kind != "return" or not (isinstance(p.ret, Agg) and p.ret.ty == "Result" and p.ret.variant == "Ok"):
                 continue
-            if loop_of(p) == "string":
-                continue                       # string / interpolation arm: outside this obligation
             s = p.state
             c = conj(p.cond)
             consumed = sr._consumed(s)
@@ -357,9 +355,17 @@ def obligations(run, mir, rp, replay, want=("advance", "invariants", "panic")):
             if last[0] != "item" or not (isinstance(last[1], Agg) and last[1].ty == "Lex"):
                 cl.append(z3.Not(c))
                 continue
-            n_tok += 1
             pos, tok = last[1].fields
             st_, en_ = pos.fields[0].fields, pos.fields[1].fields
+            if isinstance(tok, Agg) and tok.variant == "DocStr":
+                continue      # content that itself starts and ends with two quotes: not reachable from the scanner, outside
+            n_tok += 1
+            if isinstance(tok, Agg) and tok.variant == "Str":
+                # strings may span lines: lines advance by the newline characters, columns are claimed for one-line strings
+                nl = lexkern.nl_of(ex, ex.to_val(s, tok.fields[0]))
+                cl.append(z3.Implies(c, z3.And(st_[0] == S.line, st_[1] == S.col, en_[0] == S.line + nl, line2 == S.line + nl,
+                                               z3.Implies(nl == 0, z3.And(en_[1] == S.col + consumed, col2 == S.col + consumed)))))
+                continue
             cl.append(z3.Implies(c, z3.And(st_[0] == S.line, st_[1] == S.col, en_[0] == S.line, en_[1] == S.col + consumed,
                                            line2 == S.line, col2 == S.col + consumed, z3.UGE(consumed, 1))))
         if n_tok < 20:
